@@ -47,8 +47,8 @@ CLAIMED = {
    "Seeded exploration (engine F): the real GrpcWebClientService in front of a scripted grpc-web server whose body is built by an independent encoder: 0..6 message frames + trailers frame (values with ':' and spaces, repeated names, empty values), delivered in any chunking (inside frame headers, inside the trailers frame, message and trailers in one chunk, 1-byte chunks), truncated at any byte, malformed variants; oracle = same message bytes, full trailer multiset, and an error (never a clean end, hang or busy loop) for a body cut inside a frame.",
    "A cut exactly at a frame boundary is not judged."),
  "C18": ("F+M", "DESIGN.md §7 C18, §3.4, §13",
-   "Seeded exploration (engine F): histories of set/clear/check/watch/next over a 3-service alphabet issued as tasks on the simulator-owned executor through the generated HealthClient -> HealthServer in-process; the tape picks which runnable task is polled, blocked watchers stay pending while later operations run, every watcher is drained at the end; oracle = sequential map model for Check/subscribe and a per-watcher subsequence/convergence/clear rule for Watch.",
-   "Engine F interleaves at await points only (cooperative). Thorough tier adds engine M: 2 writers (one may clear), a checker and a watcher as real threads under Miri's seeded preemptive scheduler (64 seeds x 4 workload modes, preemption rates 0.05..0.2), register-semantics check of every Check, watcher subsequence/convergence/clear rule, plus Miri's data-race/UB detection. Trusted base: tokio RwLock/watch."),
+   "Seeded exploration (engine F): histories of set/clear/check/watch/next over a 3-service alphabet issued as tasks on the simulator-owned executor through the generated HealthClient -> HealthServer in-process; the tape picks which runnable task is polled and whether a lock acquisition yields first, blocked watchers stay pending while later operations run, every watcher is drained at the end; oracle = sequential map model for Check/subscribe and a per-watcher subsequence/convergence/clear rule for Watch.",
+   "Engine F interleaves at await points and, through hook H3 (a synchronisation seam in tonic-health, feature verif-hooks), at every acquisition of the status-map lock: in half of the runs the tape makes the acquiring task yield there, so other operations run between one operation's lock acquisitions as under a multi-threaded runtime. Thorough tier adds engine M: 2-4 writers (one may clear; modes 4-5 race on first registration), a checker and a watcher as real threads under Miri's seeded preemptive scheduler (48-96 seeds x 6 workload modes), register-semantics check of every Check, watcher subsequence/convergence/clear rule, plus Miri's data-race/UB detection. Trusted base: tokio RwLock/watch."),
  "C08": ("F+N", "DESIGN.md §7 C08, §13",
    "Seeded exploration (engine F): metadata maps (ASCII/binary, repeated keys, every length mod 3, reserved-name canaries) on requests, responses, trailers and error statuses cross tonic<->tonic over the loopback (wire tap: canaries never on the wire, -bin values are base64 of the original) and tonic<->foreign peer that pads or does not pad base64; the receiver reads through the typed accessors.",
    "Engine N: the same metadata observed on the real wire by raw h2 peers (after HPACK), including padded/unpadded -bin values from a raw client. The accessor clause is a pure function of a map: sampled on every received map, not decided."),
@@ -85,10 +85,10 @@ man = {
  "version": 1,
  "setup_cmd": "cd /verif/sim && CARGO_NET_OFFLINE=true cargo build --release --offline -p tsim && CARGO_NET_OFFLINE=true cargo build --release --offline -p tsim-tls",
  "hooks": {
-   "guard": "cargo feature `verif-hooks` of crate tonic (off by default)",
-   "enable": "harness depends on tonic = { path = \"/repo/tonic\", features = [\"verif-hooks\", ...] }; harness build also uses RUSTFLAGS --cfg tokio_unstable (harness only, not a source change)",
+   "guard": "cargo feature `verif-hooks` of crates tonic and tonic-health (off by default)",
+   "enable": "harness depends on tonic = { path = \"/repo/tonic\", features = [\"verif-hooks\", ...] } and tonic-health = { path = \"/repo/tonic-health\", features = [\"verif-hooks\"] }; harness build also uses RUSTFLAGS --cfg tokio_unstable (harness only, not a source change)",
    "baseline_off_cmd": "cd /repo && cargo nextest run --workspace --no-fail-fast --offline || cargo test --workspace --no-fail-fast --offline",
-   "source_commits": ["f73bdaa8", "ef6a77ec"],
+   "source_commits": ["f73bdaa8", "ef6a77ec", "0a17787d"],
    "add_only": True,
  },
  "engines": [
